@@ -383,7 +383,7 @@ func chainRunOnce(s *Summary, c *chainCase, sp chainSplit, outerPrefix string, c
 	func() {
 		defer func() { regPanic = recover() }()
 		opts := []func(*rux.Router){}
-		if c.Kind == "notallowed" || c.Kind == "na-default" {
+		if c.Kind == "notallowed" || c.Kind == "na-default" || c.Kind == "default" {
 			opts = append(opts, rux.HandleMethodNotAllowed)
 		}
 		if cachedDyn {
@@ -476,6 +476,17 @@ func chainRunOnce(s *Summary, c *chainCase, sp chainSplit, outerPrefix string, c
 				inner[len(inner)-1](cx)
 			}, inner[:len(inner)-1]...)
 			path = "/g/h/x/7"
+		case "default":
+			// a router WITHOUT any middleware or custom fallback handler: the chain is the built-in handler alone (the script
+			// says which one); nothing is instrumented, only the calls that reach the underlying writer are observed
+			r.POST("/g/h/x", nopHandler)
+			switch c.Chain[0][0][1] {
+			case float64(404):
+				path = "/missing"
+			case float64(405):
+			default:
+				method = "OPTIONS"
+			}
 		case "na-default": // all handlers are global middleware around the DEFAULT 405 handler; a custom NotFound is installed too
 			r.Use(hs...)
 			r.NotFound(func(cx *rux.Context) { cur.log = append(cur.log, []any{"in", -2, false}) })
@@ -600,6 +611,20 @@ func chainRunOnce(s *Summary, c *chainCase, sp chainSplit, outerPrefix string, c
 	if c.CheckW && c.Length != nil && *c.Length > 0 && run.outLen != *c.Length {
 		// Length() equals the number of bytes accepted (all writer ops precede the out of handler 1 in these cases)
 		s.mismatch(desc("writer", fmt.Sprintf("Context.Length() = %d after the writes %v, the underlying writer accepted %d bytes", run.outLen, run.rw.calls, *c.Length)), c)
+		return
+	}
+	if c.Kind == "default" {
+		// the body text of the built-in handlers is not constrained; the status is: committed exactly once, first
+		wh := 0
+		for _, call := range run.rw.calls {
+			if call[0] == "WH" {
+				wh++
+			}
+		}
+		want := normLog(c.Under)
+		if wh != 1 || len(run.rw.calls) == 0 || !reflect.DeepEqual(run.rw.calls[0], want[0]) {
+			s.mismatch(desc("writer", fmt.Sprintf("built-in fallback handler on a router without middleware (%s %s): underlying writer received %v, expected one WriteHeader, first: %v", method, path, run.rw.calls, want[0])), c)
+		}
 		return
 	}
 	if c.CheckW && c.Kind != "na-default" {
